@@ -3043,7 +3043,7 @@ func (c S3ApiController) DeleteObjects(ctx *fiber.Ctx) error {
 		if obj.VersionId != nil {
 			versionId = *obj.VersionId
 		}
-		if backend.HasDotSegment(key) || !backend.IsValidId(versionId) {
+		if backend.HasDotSegment(key) || backend.HasEmptySegment(key) || !backend.IsValidId(versionId) {
 			apiErr := s3err.GetAPIError(s3err.ErrInvalidRequest)
 			accessErr = apiErr
 			denied = append(denied, types.Error{
